@@ -51,6 +51,9 @@ pub struct Case {
     /// run the context inside a loop inside a function of the parent
     #[serde(default)]
     pub in_loop_function: bool,
+    /// options the parent itself sets before the context runs (in both runs)
+    #[serde(default)]
+    pub parent_opts: Vec<String>,
     #[serde(default)]
     pub via_entry: bool,
     pub front_end: FrontEnd,
@@ -283,6 +286,10 @@ pub fn render(case: &Case, neutral: bool) -> String {
         ms.iter().map(|m| if neutral { neutralise(m) } else { m.clone() }).collect::<Vec<_>>().join("; ")
     };
     let mut s = String::from(PREFIX);
+    for o in &case.parent_opts {
+        s.push_str(o);
+        s.push('\n');
+    }
     let (defs, cmd) = ctx_text(&case.context, &join(&case.mutators), 0);
     // function definitions holding mutators must not differ in the parent's function table:
     // the neutral run defines the same names with neutral bodies, and the snapshot masks them
@@ -392,8 +399,15 @@ impl C12 {
         let cfg_b = gen_cfg(&mut rng);
         let wait_job_spec = rng.below(3) == 0;
         let in_loop_function = rng.below(4) == 0;
+        let parent_opts: Vec<String> = if rng.below(3) == 0 {
+            let all = ["set -o pipefail", "shopt -s lastpipe", "set -E", "set -T", "shopt -s extglob", "set -o noclobber", "set -o posix"];
+            let k = rng.range(1, 2);
+            (0..k).map(|_| rng.pick(&all).to_string()).collect()
+        } else {
+            vec![]
+        };
         let via_entry = rng.below(6) == 0;
-        Case { class, context, mutators, second, parent_activity, wait_job_spec, in_loop_function, via_entry, front_end, cfg, cfg_b }
+        Case { class, context, mutators, second, parent_activity, wait_job_spec, in_loop_function, parent_opts, via_entry, front_end, cfg, cfg_b }
     }
 }
 
@@ -610,6 +624,7 @@ impl Check for C12 {
                     parent_activity: vec![],
                     wait_job_spec: (ci + mi) % 2 == 0,
                     in_loop_function: (ci + mi) % 5 == 0,
+                    parent_opts: if (ci + mi) % 4 == 1 { vec!["set -o pipefail".to_string()] } else { vec![] },
                     via_entry: false,
                     front_end: FrontEnd::DashC,
                     cfg: cfg.clone(),
@@ -667,6 +682,11 @@ impl Check for C12 {
         if c.in_loop_function {
             let mut d = c.clone();
             d.in_loop_function = false;
+            out.push(d);
+        }
+        for i in 0..c.parent_opts.len() {
+            let mut d = c.clone();
+            d.parent_opts.remove(i);
             out.push(d);
         }
         if c.cfg.strategy != Strategy::LowestId {
